@@ -21,12 +21,20 @@ Definition shape (s : bytes) : option bytes :=
   | _ => None
   end.
 
+(* the four u64 constants of the len = 8 branch (date.rs:568-570):
+   0x00FF_00FF_0000_0000, 0x002E_002E_0000_0000, 0xFF30_FF30_FFFF_FFFF, 0x0030_0030_0000_0000.
+   [date_parse_is_alt] below checks by conversion that Date.date_parse uses exactly these. *)
+Definition date8_sep_mask : N := 71777214277877760.
+Definition date8_sep_dots : N := 12948046497185792.
+Definition date8_keep_mask : N := 18388477864472215551.
+Definition date8_zero_fill : N := 13511005040541696.
+
 (* the `_ =>` arm of Date::_parse *)
 Definition date_default (s : bytes) : outcome (option rawdate) :=
     if Nat.eqb (length s) 8 then
       let d := le_u64 s in
-      let one_digit_month := (N.land d 71777214277877760 =? 12948046497185792)%N in
-      let e := N.lor (N.land d 18388477864472215551) 13511005040541696 in
+      let one_digit_month := (N.land d date8_sep_mask =? date8_sep_dots)%N in
+      let e := N.lor (N.land d date8_keep_mask) date8_zero_fill in
       match (if one_digit_month then date_fast_parse_u64 e else None) with
       | Some x => x
       | None => date_fallback s
@@ -209,12 +217,13 @@ Qed.
 (* ---------- the len = 8 mask trick (YYYY.M.D) ---------- *)
 Lemma mask_test b0 b1 b2 b3 b4 b5 b6 b7 :
   wfl [b0; b1; b2; b3; b4; b5; b6; b7] ->
-  (N.land (le_u64 [b0; b1; b2; b3; b4; b5; b6; b7]) 71777214277877760 =? 12948046497185792)%N
+  (N.land (le_u64 [b0; b1; b2; b3; b4; b5; b6; b7]) date8_sep_mask =? date8_sep_dots)%N
   = ((b4 =? 46) && (b6 =? 46))%N.
 Proof.
   intros Hw. rewrite lanes_le_u64.
-  change 71777214277877760%N with (lev [0; 0; 0; 0; 255; 0; 255; 0]%N).
+  change date8_sep_mask with (lev [0; 0; 0; 0; 255; 0; 255; 0]%N).
   rewrite lanes_land_lev; [| exact Hw | repeat constructor; lia | reflexivity].
+  change date8_sep_dots with (lev [0; 0; 0; 0; 46; 0; 46; 0]%N).
   cbn [map2]. rewrite !N.land_0_r.
   repeat match goal with H : wfl (_ :: _) |- _ => inversion H; clear H; subst | H : Forall _ (_ :: _) |- _ => inversion H; clear H; subst end.
   rewrite !lanes_land_255 by assumption. cbn [lev].
@@ -224,12 +233,12 @@ Qed.
 
 Lemma mask_pack b0 b1 b2 b3 b5 b7 :
   wfl [b0; b1; b2; b3; 46; b5; 46; b7]%N ->
-  N.lor (N.land (le_u64 [b0; b1; b2; b3; 46; b5; 46; b7]%N) 18388477864472215551) 13511005040541696
+  N.lor (N.land (le_u64 [b0; b1; b2; b3; 46; b5; 46; b7]%N) date8_keep_mask) date8_zero_fill
   = le_u64 [b0; b1; b2; b3; Z0c; b5; Z0c; b7].
 Proof.
   intros Hw. rewrite !lanes_le_u64.
-  change 18388477864472215551%N with (lev [255; 255; 255; 255; 48; 255; 48; 255]%N).
-  change 13511005040541696%N with (lev [0; 0; 0; 0; 48; 0; 48; 0]%N).
+  change date8_keep_mask with (lev [255; 255; 255; 255; 48; 255; 48; 255]%N).
+  change date8_zero_fill with (lev [0; 0; 0; 0; 48; 0; 48; 0]%N).
   rewrite lanes_land_lev; [| exact Hw | repeat constructor; lia | reflexivity].
   cbn [map2].
   repeat match goal with H : wfl (_ :: _) |- _ => inversion H; clear H; subst | H : Forall _ (_ :: _) |- _ => inversion H; clear H; subst end.
@@ -247,6 +256,17 @@ Proof.
   destruct (N.eqb_spec b4 46) as [->|N4]; [|reflexivity].
   destruct (N.eqb_spec b6 46) as [->|N6]; [|reflexivity]. cbn [andb].
   rewrite (mask_pack _ _ _ _ _ _ Hw). apply (fast_8 b0 b1 b2 b3 b5 b7 Hw).
+Qed.
+
+(* the fast path really is taken: "1444.1.1" passes the separator test and the packed word decodes *)
+Example date8_fast_path_taken :
+  exists s r, length s = 8%nat /\
+    (N.land (le_u64 s) date8_sep_mask =? date8_sep_dots)%N = true /\
+    date_fast_parse_u64 (N.lor (N.land (le_u64 s) date8_keep_mask) date8_zero_fill) = Some (Ok (Some r)) /\
+    date_parse s = Ok (Some r).
+Proof.
+  exists [49; 52; 52; 52; 46; 49; 46; 49]%N, (mkraw 1444 (1 * 4096 + 1 * 128)).
+  repeat split; vm_compute; reflexivity.
 Qed.
 
 (* ---------- Date::_parse = length/first-byte guard, then component-wise parsing ---------- *)
